@@ -154,9 +154,13 @@ X86Step(P, s) ==
   IF op \in {"label", "mark"} THEN Next1(s)
   ELSE IF s.strict /\ X86Unencodable(i) # "" THEN Fail(s, "encode", "unencodable instruction: " \o X86Unencodable(i))
   ELSE IF op = "lea" /\ i.a[2].k = "mem" THEN        \* address arithmetic, no memory access, flags untouched
+     \* full 64-bit arithmetic: base + index * scale + displacement (`lea t, [a + b]` is an ordinary addition)
      LET b == s.regs[i.a[2].base]
-         v == IF X86IndexOK(s, i.a[2]) THEN AddV(b, IntV(FromInt(X86Disp(s, i.a[2])))) ELSE BadV("lea with an index register that holds no small integer")
-     IN IF IsJunk(b) THEN Fail(s, "undef", "lea from an undefined register") ELSE IF IsBad(v) THEN BadToFail(s, v) ELSE Next1(X86Write(s, i.a[1], v))
+         ix == IF i.a[2].index = "" THEN IntV(Zero) ELSE s.regs[i.a[2].index]
+         sc == IF ix.t = "int" THEN IntV(Mul(ix.w, FromNat(i.a[2].scale))) ELSE IF i.a[2].scale = 1 THEN ix ELSE BadV("lea scales a register that holds no integer")
+         v == AddV(AddV(b, sc), IntV(FromInt(i.a[2].off)))
+     IN IF IsJunk(b) \/ IsJunk(ix) THEN Fail(s, "undef", "lea from an undefined register") ELSE IF IsBad(sc) THEN BadToFail(s, sc)
+        ELSE IF IsBad(v) THEN BadToFail(s, v) ELSE Next1(X86Write(s, i.a[1], v))
   ELSE IF op \in {"mov", "lea"} THEN
      LET v == X86Read(s, i.a[2])
      IN IF IsBadOrEx(v) THEN BadToFail(s, v) ELSE Next1(X86Write(s, i.a[1], v))
